@@ -706,6 +706,8 @@ class HistogramBase(abc.ABC):
             tolerance = np.maximum(
                 1e-9 * width, 4 * np.spacing(np.maximum(np.abs(bins1), np.abs(bins2)))
             )
+            # ...and never a noticeable part of a bin (bins a few ulp of their edges wide)
+            tolerance = np.minimum(tolerance, width / 4)
             return bool(np.all(np.abs(bins1 - bins2) <= tolerance))
 
         if self.ndim == 1:
